@@ -27,6 +27,7 @@ import PGProofs.Glue
 import PGProofs.Bridge
 import PGProofs.MomentsThm
 import PGProofs.RewardsThm
+import PGProofs.EndToEnd
 
 set_option linter.all false
 set_option pp.fieldNotation.generalized false
@@ -79,6 +80,21 @@ theorem treeHeight_reward : ∀ (n : ℕ) (s : State), (∀ l < State.nLoci s, 1
 /-- Metzler generators and non-negative rewards give non-negative raw moments -/
 theorem moments_nonneg : ∀ {K : Type} [inst : Field K] [inst_1 : LinearOrder K] [inst_2 : IsStrictOrderedRing K] {ι : Type} [inst_3 : Fintype ι] [inst_4 : DecidableEq ι] {k : ℕ} (L : ExpLaw K) (S : ℕ → Matrix ι ι K) (R : Fin k → ι → K) (α : ι → K), (∀ (e : ℕ) (i j : ι), i ≠ j → 0 ≤ S e i j) → (∀ (a : Fin k) (i : ι), 0 ≤ R a i) → (∀ (i : ι), 0 ≤ α i) → ∀ (fs : List (ℕ × K)), (∀ f ∈ fs, 0 ≤ f.2) → 0 ≤ accumVal L S R α fs := @PG.accum_nonneg
 
+/-- CAPSTONE: what Coalescent/dist.moment(k, rewards, start_time, end_time, center, permute) RETURNS for a well-formed call (argument resolution, window difference, centring, permutation average, epoch sweep, rate matrices built by BFS) equals the same combination of moments of the LABELLED structured coalescent -/
+theorem end_to_end_moment : type_of% @PG.EndToEnd.moment_call_eq_labelled := @PG.EndToEnd.moment_call_eq_labelled   -- (printed statement does not re-elaborate; see the source lemma)
+
+/-- accumulate on ANY list of times (unsorted, repeated): entry i is the labelled value at times[i] -/
+theorem end_to_end_vector : type_of% @PG.EndToEnd.accumulate_call_vector_eq_labelled := @PG.EndToEnd.accumulate_call_vector_eq_labelled   -- (printed statement does not re-elaborate; see the source lemma)
+
+/-- a labelled start configuration with the right counts always exists -/
+theorem end_to_end_nonvacuous : type_of% @PG.EndToEnd.moment_call_eq_labelled_exists := @PG.EndToEnd.moment_call_eq_labelled_exists   -- (printed statement does not re-elaborate; see the source lemma)
+
+/-- the raw conditioned accumulation of the call layer is the sweep of the code model -/
+theorem end_to_end_raw : ∀ {D : ℕ} {K : Type} [inst : Field K] [inst_1 : LinearOrder K] [inst_2 : IsStrictOrderedRing K] (L : ExpLaw K) (G : ℕ → Graph) (n : ℕ) (c0 : Fin D → ℕ) (eps : List EpochT) (rs : List Reward) (times : List ℚ), codeVectorised (fun fs ↦ accumVal L (fun e ↦ Matrix.map (Assembly.codeMat G e) fun q ↦ ↑q) (fun a j ↦ ↑(Reward.eval n (G 0).visited[j] rs[a])) (fun j ↦ ↑(List.getD (alphaVec (G 0).visited (List.ofFn c0) 1 0) (↑j) 0)) (castF fs)) eps times = List.map (EndToEnd.codeRaw L G n c0 eps rs) times := @PG.EndToEnd.raw_of_code
+
+/-- instantiated with the real matrix exponential on a concrete model (BFS evaluated in the kernel) -/
+theorem end_to_end_instance : type_of% @PG.EndToEnd.capstone_instance := @PG.EndToEnd.capstone_instance   -- (printed statement does not re-elaborate; see the source lemma)
+
 end PG.C01
 
 #print axioms PG.C01.moments_eq_labelled
@@ -96,3 +112,8 @@ end PG.C01
 #print axioms PG.C01.third_central_formula
 #print axioms PG.C01.treeHeight_reward
 #print axioms PG.C01.moments_nonneg
+#print axioms PG.C01.end_to_end_moment
+#print axioms PG.C01.end_to_end_vector
+#print axioms PG.C01.end_to_end_nonvacuous
+#print axioms PG.C01.end_to_end_raw
+#print axioms PG.C01.end_to_end_instance
